@@ -115,6 +115,8 @@ def main():
         if res.get("budget_exhausted"):
             exhausted.append(p["harness"])
 
+    # ---- a part that executed nothing decides nothing: report it loudly instead of passing silently
+    empty_parts = [n for n, m in merged.items() if m["evaluations"] == 0 and not (a.only)]
     # ---- triage
     violations = 0
     flaky = []
@@ -167,6 +169,9 @@ def main():
     shutil.rmtree(work, ignore_errors=True)
     ev = sum(m["evaluations"] for m in merged.values())
     log(f"property={prop} tier={tier} seed={seed} evaluations={ev} violations={violations} wall={wall:.1f}s")
+    if empty_parts and not violations:
+        log(f"HARNESS-PROBLEM property={prop}: no case was executed for {empty_parts} (generator gave up / harness error); not a verdict")
+        sys.exit(3)
     sys.exit(1 if violations else 0)
 
 
